@@ -116,6 +116,39 @@ func (gbf GenBankFields) Slice(start, end int) interface{} {
 	return gbf
 }
 
+// Rotate returns a metadata whose reference base ranges follow a change of
+// origin by n positions on a circular sequence of the given length. A range
+// that comes to span the new origin is split in two.
+func (gbf GenBankFields) Rotate(n, length int) interface{} {
+	prefix := gbf.Molecule.Counter()
+	parser := parseReferenceInfo(prefix)
+
+	refs := make([]Reference, len(gbf.References))
+	for i, ref := range gbf.References {
+		result, err := parser.Parse(pars.FromString(ref.Info))
+		if err == nil && length > 0 {
+			ss := []string{}
+			for _, loc := range result.Value.([]gts.Ranged) {
+				moved := gts.Range(loc.Start+n, loc.End+n).Normalize(length)
+				parts := []gts.Location{moved}
+				if joined, ok := moved.(gts.Joined); ok {
+					parts = joined
+				}
+				for _, part := range parts {
+					if r, ok := part.(gts.Ranged); ok {
+						ss = append(ss, fmt.Sprintf("%d to %d", r.Start+1, r.End))
+					}
+				}
+			}
+			ref.Info = fmt.Sprintf("(%s %s)", prefix, strings.Join(ss, "; "))
+		}
+		refs[i] = ref
+	}
+	gbf.References = refs
+
+	return gbf
+}
+
 // ID returns the ID of the sequence.
 func (gbf GenBankFields) ID() string {
 	if gbf.Version != "" {
